@@ -1158,6 +1158,21 @@ def r17_default_stored_whenever_present(chk):
                  keep=lambda o: any(k in o.key for k in ('default', 'syntax', 'units')), floor=2)
 
 
+
+def r_no_partial_key_memo(chk):
+    """an answer cached under part of the clause is wrong for the clause that differs in the rest"""
+    common.no_partial_key_memo(chk, 'C05.R18', 'pysmi/codegen/intermediate.py', 'IntermediateCodeGen')
+    common.no_partial_key_memo(chk, 'C05.R18', 'pysmi/codegen/symtable.py', 'SymtableCodeGen')
+
+
+
+def r19_default_macro_renders_python(chk):
+    """the default() macro must render what genDefVal produced as the Python literal it is (shared with C04.R10: every
+    rendering path parses)"""
+    from rules.C04 import r10_rendering_paths_are_python
+    r10_rendering_paths_are_python(chk, rule='C05.R19')
+
+
 RULES = [r1_number_classifier, r2_value_alternatives, r3_literal_conversion, r4_ranges, r5_enum_bits,
          r7_base_type_walk, r8_defval, r9_syntax_productions, r10_collectors, r11_guard_slice_agreement,
-         r12_defval_decision_table, r6_constraints_macro, r13_labels_compared_as_written, r12_literals_reach_the_generators_as_written, r_absent_values_C05_R14, r16_subtype_reaches_the_record, r17_default_stored_whenever_present]
+         r12_defval_decision_table, r6_constraints_macro, r13_labels_compared_as_written, r12_literals_reach_the_generators_as_written, r_absent_values_C05_R14, r16_subtype_reaches_the_record, r17_default_stored_whenever_present, r_no_partial_key_memo, r19_default_macro_renders_python]
